@@ -857,9 +857,16 @@ func (e *aEnv) step(st aStep, idx int) (res aRes) {
 		cur.Op, cur.Method = "http", "GET"
 		pages := []aRes{}
 		others := [][]aRes{}
+		midRes := []aRes{}
 		for n := 0; n < 60; n++ {
 			r := e.doHTTP(cur, -1)
 			pages = append(pages, r)
+			if len(st.Mid) > 0 && n == st.Split {
+				// other requests between two pages of the listing (their answers follow the pages in Par)
+				for _, m := range st.Mid {
+					midRes = append(midRes, e.step(m, -1))
+				}
+			}
 			link := ""
 			if v, ok := r.Headers["Link"]; ok && len(v) > 0 {
 				link = v[0]
@@ -884,6 +891,9 @@ func (e *aEnv) step(st aStep, idx int) (res aRes) {
 			}
 		}
 		res.Par = append([][]aRes{pages}, others...)
+		if len(st.Mid) > 0 {
+			res.Par = append(res.Par, midRes)
+		}
 	case "par":
 		res.Par = make([][]aRes, len(st.Par))
 		var wg sync.WaitGroup
